@@ -82,7 +82,27 @@ def _streams(tier, seed):
     for _ in range(60 if tier == 'quick' else 600):
         n = rng.randint(4, 40)
         out.append([Fraction(rng.randint(-50, 50), rng.randint(1, 7)) for _ in range(n)])
+    # the same statement at very small and very large magnitudes (closed forms are homogeneous in the inputs)
+    for base in list(out[-6:]):
+        for scale in (Fraction(1, 10 ** 18), Fraction(1, 10 ** 9), Fraction(10 ** 12)):
+            out.append([v * scale for v in base])
     return out
+
+
+def _same(got, exact, scale):
+    """exact when the class computed in exact arithmetic (Fractions in, Fractions out); when the code itself goes through a
+    float (a float literal in the update) the comparison is up to binary64 rounding RELATIVE TO THE MAGNITUDE OF THE INPUTS
+    (scale = max |input|, or its square for variances) - the statement is about real arithmetic"""
+    if isinstance(got, (Fraction, int)) and not isinstance(got, bool):
+        return got == exact
+    return abs(Fraction(float(got)) - exact) <= Fraction(1, 10 ** 9) * scale
+
+
+def _within(lo, got, hi):
+    if isinstance(got, (Fraction, int)):
+        return lo <= got <= hi
+    tol = Fraction(1, 10 ** 9) * max(abs(lo), abs(hi))
+    return lo - tol <= Fraction(float(got)) <= hi + tol
 
 
 def BOUNDED(tier, seed):
@@ -98,7 +118,8 @@ def BOUNDED(tier, seed):
             distinct.add(tuple(pre))
             mean = sum(pre) / len(pre)
             var = sum((x - mean) ** 2 for x in pre) / len(pre)
-            ok = (w.mean == mean and w.var == var and w.N == len(pre) and min(pre) <= w.mean <= max(pre)
+            sc = max([abs(x) for x in pre] + [Fraction(0)])
+            ok = (_same(w.mean, mean, sc) and _same(w.var, var, sc * sc) and w.N == len(pre) and _within(min(pre), w.mean, max(pre))
                   and abs(float(w.std) - float(var) ** 0.5) <= 1e-9 * (1 + float(var) ** 0.5))
             if not ok:
                 fails.append({'key': 'welford', 'summary': f'WelfordTracker differs from the closed form on {pre}',
@@ -114,7 +135,7 @@ def BOUNDED(tier, seed):
                 n = len(pre)
                 evals += 1
                 closed = sum(alpha * (1 - alpha) ** (n - 1 - j) * pre[j] for j in range(n))
-                ok = e.get() == closed and e.N == n and min([0] + pre) <= e.get() <= max([0] + pre)
+                ok = _same(e.get(), closed, max([abs(x) for x in pre] + [Fraction(0)])) and e.N == n and _within(min([0] + pre), e.get(), max([0] + pre))
                 if not ok:
                     fails.append({'key': 'es', 'summary': f'ExponentialSmoothingTracker({alpha}) differs on {pre}',
                                   'stream': [str(x) for x in pre], 'alpha': str(alpha),
